@@ -452,7 +452,12 @@ impl<C> Inner<C> {
     where
         C: Service<ProtocolMessage, Response = ProtocolMessageAck, Error = DispatcherError<E>>,
     {
-        let result = match self.control.call(pkt).await {
+        let result = self.control.call(pkt).await;
+        // control requests are processed one at a time, wake up dispatcher
+        // so it can release buffered requests
+        self.sink.notify_dispatcher();
+
+        let result = match result {
             Ok(result) => {
                 if let Some(id) = num::NonZeroU16::new(packet_id) {
                     self.info.borrow_mut().inflight.remove(&id);
